@@ -98,6 +98,43 @@ def offSem : CacheSem Unit Nat Nat where
 
 theorem offOps_eq : offOps = CacheOps.ofSem offSem := rfl
 
+/-! ### a cache that hands out detached copies is a cache semantics even when callers edit their results -/
+
+def AHolds (s : AState) (k : Nat) (v : List Nat) : Prop := (k, v) ∈ s.store
+
+theorem aFind_some {s : AState} {k : Nat} {p : Nat × List Nat} (h : aFind s k = some p) : p ∈ s.store ∧ p.1 = k := by
+  unfold aFind at h
+  exact ⟨List.mem_of_find?_eq_some h, by simpa using List.find?_some h⟩
+
+def copySem : CacheSem AState Nat (List Nat) where
+  get := aGet
+  put := aPut
+  other := aEditCopy
+  holds := AHolds
+  get_hit := by
+    intro s k v h
+    unfold aGet at h
+    split at h
+    · rename_i p hp
+      obtain ⟨hm, hk⟩ := aFind_some hp
+      simp only [Option.some.injEq] at h
+      show (k, v) ∈ s.store
+      rw [← hk, ← h]; exact hm
+    · simp at h
+  get_mono := by
+    intro s k k' v' h
+    unfold aGet at h
+    split at h <;> exact h
+  put_mono := by
+    intro s k v k' v' h
+    simp only [AHolds, aPut, List.mem_cons, List.mem_filter] at h
+    rcases h with h | h
+    · exact Or.inr (by simpa using h)
+    · exact Or.inl h.1
+  other_mono := by intro s t k' v' h; exact h
+
+theorem copyOps_eq : copyOps = CacheOps.ofSem copySem := rfl
+
 /-! ### hits come from an input with the same key -/
 
 /-- In a `Good` state a hit for `key x` was computed by `f` from some `x'` with the same key. -/
